@@ -30,6 +30,8 @@ pub mod unordered_hash_map;
 pub mod unordered_hash_set;
 #[cfg(cairo_verif)]
 pub mod verif_par;
+#[cfg(cairo_verif)]
+pub mod verif_hash;
 
 #[cfg(feature = "std")]
 pub use heap_size::HeapSize;
